@@ -297,6 +297,10 @@ def gen_load(rng, tier):
                 else:
                     row.append(rng.choice(["0|0", "0|1", "1|0", "1|1", "0/0", "1/1"]))
             calls.append(row)
+        if ns > 1 and rng.random() < 0.3:
+            # one sample whose only offence is an unphased heterozygous call, all other samples clean
+            calls = [[rng.choice(["0|0", "0|1", "1|0", "1|1", "0/0", "1/1"]) for _ in range(nv)] for _ in range(ns)]
+            calls[rng.randrange(ns)][rng.randrange(nv)] = rng.choice(["0/1", "1/0"])
         yield {"calls": calls}
 
 
@@ -317,7 +321,28 @@ def impl_load(case):
             out[name] = {"ok": True, "data": g.data.astype(int).tolist(), "planes": int(g.data.shape[2]), "samples": list(g.samples), "vars": [str(v) for v in g.variants["id"]]}
         except ValueError as e:
             out[name] = {"ok": False, "msg": str(e)[:100]}
+        # the same object used again: loaded for the samples whose calls are all clean, then read() for everybody and
+        # checked by hand – whatever load() left on the object must not switch a check off
+        clean = [i for i in range(ns) if not any(_offends(c) for c in case["calls"][i])]
+        if clean and len(clean) < ns:
+            try:
+                g = cls.load(str(f), samples={f"s{i}" for i in clean})
+                g.read()
+                try:
+                    g.check_missing()
+                    g.check_biallelic()
+                    g.check_phase()
+                    out[name + "_reread"] = {"ok": True}
+                except ValueError as e:
+                    out[name + "_reread"] = {"ok": False, "msg": str(e)[:100]}
+            except ValueError as e:
+                out[name + "_reread"] = {"ok": True, "first_load_failed": str(e)[:100]}
     return out
+
+
+def _offends(c):
+    a, sep, b = c[0], c[1], c[2]
+    return a == "." or b == "." or a in "23" or b in "23" or (sep == "/" and a != b)
 
 
 def oracle_load(case, obs):
@@ -335,6 +360,12 @@ def oracle_load(case, obs):
             elif sep == "/" and a != b:
                 offending = True
     for name, r in obs.items():
+        if name.endswith("_reread"):
+            if "first_load_failed" in r:
+                return f"{name}: load of the clean samples only raised {r['first_load_failed']}"
+            if r["ok"]:
+                return f"{name}: an object obtained from load() for the clean samples, re-read for all samples, passes all three checks although the file has a missing / multiallelic / unphased heterozygous call"
+            continue
         if offending and r["ok"]:
             return f"{name}.load returned data although the file has a missing / multiallelic / unphased heterozygous call"
         if not offending:
